@@ -13,7 +13,7 @@ RULE = (
     "GFF3 files describing DAGs of 1-12 features with unique ids, depth <= 4, 0-3 parents per feature (comma list or "
     "repeated Parent keys), shared children, dangling Parent values, lines in a generated permutation; ids over letters, "
     "digits, _.:- , interior spaces, non-ASCII, escaped , ; = and (labelled minority) tab/newline/CR. Every stored x is "
-    "queried with children/parents x level in {None,1,2,3} x featuretype in {None, str, list} x order_by. Non-trivial = a "
+    "queried with children/parents x level in {None,1,2,3} x featuretype in {None, str, list} x order_by. In the update share the id of the tail's first line may first be stored under another parent and deleted again before the tail arrives. Non-trivial = a "
     "feature with >= 2 parents, or depth >= 3, or a child line before its parent's line. Distinct by hash."
 )
 ASSUMPTIONS = [
@@ -117,7 +117,7 @@ class GraphLeg(object):
             return {"nodes": nodes, "perm": list(perm), "repeated": draw(st.booleans()),
                     "file_db": draw(st.booleans()), "split": split,
                     "mixed": draw(st.integers(0, 4)) == 0, "tail_sep": draw(st.booleans()),
-                    "other_handle": draw(st.integers(0, 2)) == 0}
+                    "other_handle": draw(st.integers(0, 2)) == 0, "impostor": draw(st.booleans())}
 
         return case()
 
@@ -141,6 +141,8 @@ class GraphLeg(object):
             labels.append("reserved-in-id")
         if case.get("split") and 0 < case["split"] < len(nodes):
             labels.append("tail-through-update")
+            if case.get("impostor"):
+                labels.append("tail-id-stored-under-another-parent-and-deleted-first")
             if all(not case["nodes"][j]["parents"] for j in case["perm"][case["split"]:]):
                 labels.append("update-batch-of-roots-only")
         return multi or dp >= 3 or child_first, labels
@@ -184,7 +186,20 @@ class GraphLeg(object):
                 d2 = dict(d, sep="; ", trailing=True)
                 tail = [tm.render_line(recs[j], d2) for j in case["perm"][k:]]
             p2 = ctx.write("g2.gff3", "\n".join(tail) + "\n")
+            imp_id = None
+            if case.get("impostor") and not any(nodes[case["perm"][k]]["id"] in nodes[j]["parents"] for j in case["perm"][:k]):
+                # (only when no earlier line names that id as its Parent: delete() also removes the links to children)
+                # the id of the tail's first line is first stored under another parent (one that has parents itself, if there
+                # is one) and deleted again before the tail arrives: the delete leaves nothing of it behind
+                jx = case["perm"][k]
+                first_part = [nodes[j] for j in case["perm"][:k]]
+                cands = [nd for nd in first_part if nd["parents"]] or first_part
+                rec2 = dict(recs[jx], attrs=[(kk, vv) for kk, vv in recs[jx]["attrs"] if kk != "Parent"] + [("Parent", [cands[0]["id"]])])
+                p1 = ctx.write("g1i.gff3", "\n".join(lines[:k] + [tm.render_line(rec2, d)]) + "\n")
+                imp_id = nodes[jx]["id"]
             db = gffutils.create_db(p1, dbfn)
+            if imp_id is not None:
+                db.delete(imp_id, make_backup=False)
             for x in list(db.all_features())[:3]:  # look at it before it changes
                 list(db.children(x.id))
             if case.get("other_handle") and case["file_db"]:
